@@ -21,7 +21,7 @@ import vlib
 THEOREMS = [
     "order_sorted_perm", "order_limit_slice", "topn_eq_order_limit", "limit_count", "limit_subset",
     "absent_limit", "limit_exec_spec", "topn_absent_limit_panics", "merge_iter_sorted", "memtable_sorted",
-    "compaction_sorted_perm",
+    "compaction_sorted_perm", "merge_heap_sorted", "topn_heap_eq_order_limit",
     "concat_scan_sorted_iff", "two_rowsets_witness", "scan_contract_unsound", "order_analysis_sound",
     "useless_order_sound_partial", "useless_order_unsound",
 ]
@@ -454,6 +454,9 @@ def judge_scan(r, T, prop, sreq, sm, si, nrs):
         agree = False
     elif sorted_:
         agree = slice_equiv(mexec, [tuple(x) for x in impl], 0, None)
+        # the model runs the real binary heap: record (without judging) whether even the order of
+        # equal keys is reproduced
+        T.dist["merge scan: tie order %s" % ("reproduced" if [v for _, v in mexec] == [tuple(x) for x in impl] else "differs")] += 1
     else:
         agree = [v for _, v in mexec] == [tuple(x) for x in impl]
     T.dist["scan:%s%s" % ("sorted" if sorted_ else "plain", "+range" if sreq[2] != "none" else "")] += 1
